@@ -16,8 +16,8 @@ import (
 // skips such zeros.
 
 func genDlarft(g *vlib.G) {
-	for n := 1; n <= vlib.Pick(g, 6, 8); n++ {
-		for k := 1; k <= min(n, vlib.Pick(g, 4, 5)); k++ {
+	for n := 1; n <= p3(g, 6, 8, 9); n++ {
+		for k := 1; k <= min(n, p3(g, 4, 5, 5)); k++ {
 			for _, direct := range []lapack.Direct{lapack.Forward, lapack.Backward} {
 				for _, store := range []lapack.StoreV{lapack.ColumnWise, lapack.RowWise} {
 					n, k, direct, store := n, k, direct, store
